@@ -288,7 +288,7 @@ class Loader(yaml.SafeLoader):
                 r'|\.(?:inf|Inf|INF)'
                 # not a number
                 r'|\.(?:nan|NaN|NAN)'
-                r'))$', re.X)
+                r'))\Z', re.X)
 
         new_implicit_resolvers = dict()
 
@@ -317,7 +317,7 @@ class Loader(yaml.SafeLoader):
         with YAML 1.2 bools.
         """
         yaml12_bool_regex = re.compile(
-                r'^(?:true|True|TRUE|false|False|FALSE)$', re.X)
+                r'^(?:true|True|TRUE|false|False|FALSE)\Z', re.X)
 
         new_implicit_resolvers = dict()
 
